@@ -22,8 +22,8 @@ RULE = ("ddec <type> <hex>: for every type definition and value of the C08 corpu
         "(iii) the documented error class; (iv) an error.  Borrowing is observed by pointer range in the harness.  Values whose Some(x) encodes as null "
         "(Option in Option, Option of a transparent nil) are compared with the model only (documented exclusion).")
 ASSUMPTIONS = list(base.ASSUMPTIONS) + [
-    "the enum wrapper `array(2)` is kept definite when re-framing: the generated decoder rejects an indefinite-length wrapper (`9f idx body ff`) with a "
-    "message error; the documentation writes `array(2)`; reported to the lead as a possible finding, modelled as the code behaves",
+    "the enum wrapper `array(2)` is kept definite in the stream derive-reframed; the separate stream derive-reframed-enum-wrapper makes it indefinite and "
+    "records the rejection as known finding K8 (theorems derive_enum_indefinite_wrapper_rejected / derive_decode_reframed_counterexample_K8)",
     "chunked (indefinite-length) strings are not part of the re-framing: String/&str/byte-string decoders reject them by design"]
 
 
@@ -70,7 +70,7 @@ def streams(rng, tier):
     c = base.corpus(tier)
     a = base.ann()
     exp = {}
-    rt, rf, er, pf = [], [], [], []      # (impl op, model op)
+    rt, rf, er, pf, rw = [], [], [], [], []      # (impl op, model op)
     for name, ty, vals in c.cases:
         p = dg.proto(ty)
         for n, v in enumerate(vals):
@@ -86,6 +86,12 @@ def streams(rng, tier):
                 op = f"ddec {name} {b2.hex()} {a} #rf"
                 rf.append((op, f"ddec {p} {b2.hex()}"))
                 exp[op] = None if clash else ("line", ok_line(ty, v, len(b2)))
+            if n % 2 == 0:
+                b4 = dg.py_encode(ty, v, dg.Opts(wrap_indef=True, indef=(n % 4 == 0)))
+                if b"\x9f" in b4 and b4 != dg.py_encode(ty, v, dg.Opts(indef=(n % 4 == 0))):
+                    op = f"ddec {name} {b4.hex()} {a} #rfw"
+                    rw.append((op, f"ddec {p} {b4.hex()}"))
+                    exp[op] = None if clash else ("k8", ok_line(ty, v, len(b4)))
             if n < (4 if tier == "quick" else 12):
                 for mut, cls in mutations(ty, v):
                     b3 = dg.py_encode(ty, v, None, mut)
@@ -104,6 +110,10 @@ def streams(rng, tier):
         if e is not None:
             if e[0] == "line":
                 if impl != e[1]: return "violation"
+            elif e[0] == "k8":
+                # the property wants the value back; the generated decoder rejects an indefinite enum wrapper (K8)
+                if impl != e[1]:
+                    return ("known", "K8") if impl == model and impl.startswith("err message") else "violation"
             else:
                 iw = impl.split(" ")
                 if iw[0] != "err": return "violation"
@@ -117,7 +127,9 @@ def streams(rng, tier):
     return [mk("derive-roundtrip", rt, RULE),
             mk("derive-reframed", rf, "re-framed encodings (indefinite containers, widened heads) decode to the same value and are consumed exactly"),
             mk("derive-errors", er, "wrong / missing tag, missing mandatory field, unknown top-level variant are errors of the documented class"),
-            mk("derive-prefixes", pf, "strict prefixes of an encoding never decode")]
+            mk("derive-prefixes", pf, "strict prefixes of an encoding never decode"),
+            mk("derive-reframed-enum-wrapper", rw, "re-framings in which the two-element wrapper [variant index, body] of every (non index_only) enum is an "
+               "indefinite-length array: the property demands the value, the code answers with a message error (known finding K8)")]
 
 
 def replay_streams(rp):
